@@ -16,7 +16,10 @@ Record case := {
   c_shown : list outcome;            (* the JSON printed by --proposer-config-check, decoded again *)
   c_marshalled : option json;        (* what the implementation marshalled after the lookups *)
   c_ok2 : bool;                      (* unmarshal of the marshalled text succeeded *)
-  c_out2 : list outcome
+  c_out2 : list outcome;
+  c_v1_per_value : bool              (* judge legacy lookups by the per-value reading of docs/execlayer.md
+                                        (set by the harness when known_findings.json registers
+                                        C10-v1-entry-not-fieldwise; see [P_b]) *)
 }.
 
 (* ---- equality on the projected observables ---- *)
@@ -140,16 +143,26 @@ Definition agree (c : case) : bool :=
    document with a meaning must be accepted, every validator must get exactly the settings the
    precedence gives, nothing may panic, what --proposer-config-check prints must be those
    settings, and after marshal -> unmarshal every validator must get the same settings again. *)
-Definition P_b (c : case) : bool :=
+Definition P_with (spec : config -> validator -> N -> N -> outcome) (c : case) : bool :=
   match unmarshal (c_doc c) with
   | None => negb (c_ok1 c)
   | Some cfg =>
       c_ok1 c
-      && list_eqb outcome_eqb (map (fun v => resolve cfg v (c_fbfee c) (c_fbgas c)) (c_vals c)) (c_out1 c)
+      && list_eqb outcome_eqb (map (fun v => spec cfg v (c_fbfee c) (c_fbgas c)) (c_vals c)) (c_out1 c)
       && list_eqb outcome_eqb (c_out1 c) (c_shown c)
       && c_ok2 c
       && list_eqb outcome_eqb (c_out1 c) (c_out2 c)
   end.
+
+(* The legacy format has two documented readings.  The property's own wording ("legacy lookup
+   proposer -> default -> fallback") selects a whole entry: [resolve].  docs/execlayer.md words
+   the precedence per value: [resolve_doc]; the code does not do that (theorem
+   C10_v1_fieldwise_refuted), which is known finding C10-v1-entry-not-fieldwise.  Once that
+   finding is registered in known_findings.json the harness sets [c_v1_per_value] and the cases
+   tagged "v1-fieldwise" are reported as KNOWN-FINDING; until then the whole-entry reading is
+   the oracle.  Version 2 documents are judged identically by both. *)
+Definition P_b (c : case) : bool :=
+  if c_v1_per_value c then P_with resolve_doc c else P_with resolve c.
 
 Definition mismatches (cs : list case) : list N := failing_ids c_id agree cs.
 Definition violations (cs : list case) : list N := failing_ids c_id P_b cs.
